@@ -255,6 +255,26 @@ pub fn run(ctx: &Ctx, c01: bool, c02: bool) -> i32 {
         for p in adversarial_roots() {
             perft_check(ctx, "adversarial", &p, if quick { 2 } else { 3 }, None);
         }
+        // perft from special-rule positions as well: an error in move application (rights,
+        // en-passant target) only shows in the move lists of later plies
+        {
+            let (stride, step) = if quick { (37, 11) } else { (5, 3) };
+            let mut roots: Vec<Pos> = crate::explore::collect_families(&[fcastle(true), fep(false), fpromo()], stride).into_iter().step_by(step).collect();
+            roots.extend(fcorner_roots().into_iter().step_by(if quick { 7 } else { 1 }));
+            ctx.add("perft_special_rule_roots", roots.len() as u64);
+            let next = std::sync::atomic::AtomicUsize::new(0);
+            std::thread::scope(|s| {
+                for _ in 0..crate::explore::threads() {
+                    s.spawn(|| loop {
+                        let i = next.fetch_add(1, std::sync::atomic::Ordering::Relaxed);
+                        if i >= roots.len() {
+                            break;
+                        }
+                        perft_check(ctx, "special-rule family", &roots[i], 3, None);
+                    });
+                }
+            });
+        }
         // the same walk through the command-line front end
         if std::path::Path::new(&crate::ucidrv::cli_path()).exists() {
             let mut roots: Vec<Pos> = perft_roots().into_iter().map(|x| x.1).collect();
